@@ -958,6 +958,12 @@ func vcRunC05RegisterFails(t *vcTrial) {
 		}
 		return
 	}
+	// the connection's own finalizer (registered first, runs last) closes the descriptor and releases
+	// the slot: wait for its last hook event before counting anything
+	if !vcWaitPoint(t.Mark, vpFinalizerAfterClose, rec.ID, 10*time.Second) {
+		t.Inconclusive("finalizer end not seen 10s after the user callbacks ran")
+		return
+	}
 	time.Sleep(500 * time.Microsecond)
 	func() {
 		defer func() {
